@@ -1608,6 +1608,37 @@ def check_rotation(case, rec):
             f"{variant} kriging variance changes by {err:.3g} under a rotation of the sphere (tol {tol_v:.3g})",
             dict(tags, kind="rotation_var", variant=variant),
         )
+    # the data locations under other labels (longitude +-360, any longitude at a pole) as targets, zero measurement error requested:
+    # a relabelled datum is the datum - its value comes back and the kriging variance is zero
+    wr = np.array(case["wraps"][:nc], dtype=float)
+    wr = np.where(wr == 0.0, 360.0, wr)
+    lab_lon = np.where(np.abs(clat) == 90.0, clon + 77.0, clon + wr)
+    lpos = np.vstack([clat, lab_lon] + ([ct] if T else []))
+    sens2 = _krige_sens(ref, spec["nugget"], d_cc, d_cc, dr)
+    if sens2 is not None:
+        dC2, lam2, ninv2 = sens2
+        vals = np.array(case["cond_val"], dtype=float)
+        for variant in ("simple", "ordinary"):
+            vt = dict(tags, variant=variant, exact=True)
+            if variant == "simple":
+                ke = lib(gs.krige.Simple, model, pos[:, :nc].copy(), vals.copy(), mean=case["mean"], exact=True, _what="Simple kriging (exact)", _tags=vt)
+            else:
+                ke = lib(gs.krige.Ordinary, model, pos[:, :nc].copy(), vals.copy(), exact=True, _what="Ordinary kriging (exact)", _tags=vt)
+            kc = float(np.linalg.cond(ke._krige_mat))
+            if not kc < 1e8:
+                rec.exclude("relabel_cond>1e8")
+                continue
+            fe, ve = lib(ke, lpos.copy(), _what="kriging at relabelled data locations", _tags=vt)
+            rel = max(1e-8, 1e-13 * kc)
+            tol_f = rel * zs + 2 * zs * ninv2 * nc * dC2 * (1 + lam2)
+            tol_v = rel * sill + (2 * lam2 + lam2**2) * dC2
+            rec.label("relabelled_data_as_targets" + ("_nugget" if spec["nugget"] > 0 else ""))
+            err = float(np.max(np.abs(fe - vals)))
+            require(err <= tol_f, f"{variant} kriging (exact=True) at the data locations written with other labels (lon {lab_lon.tolist()} for {clon.tolist()}) misses the data by {err:.3g} (tol {tol_f:.3g})",
+                    dict(vt, kind="relabel_field"))
+            err = float(np.max(np.abs(ve)))
+            require(err <= tol_v, f"{variant} kriging variance (exact=True) at the data locations written with other labels is {err:.3g}, expected 0 (tol {tol_v:.3g})",
+                    dict(vt, kind="relabel_var"))
     rot_angle = 2 * math.acos(min(1.0, abs(case["quat"][0]) / math.sqrt(sum(x * x for x in case["quat"]))))
     rec.nontrivial(worst < 1e8 and rot_angle > 1e-3 and _nontrivial_pts(lat, lon, g))
 
